@@ -224,7 +224,7 @@ class Session:
         try:
             for op in ops:
                 self.one_decl_op(style, op, spec)
-                if self.rng.random() < 0.25:
+                if self.rng.random() < 0.12:
                     self.probe_prefs_decl(style, G.gen_prefs(self.rng))
             self.probe_prefs_decl(style, G.gen_prefs(self.rng))
             self.probe_prefs_decl(style, G.gen_prefs(self.rng, single=True))
@@ -367,12 +367,13 @@ class Session:
             self.emit('seti %s %s %s' % (enc(name), opt(value), opt(prio)), r, op)
         elif k == 'attrset':
             _, dom, cssname, value = op
-            fr.tok(cssname)
+            if cssname:
+                fr.tok(cssname)
             if value:
                 fr.val(value)
             r = self.call(lambda: setattr(style, dom, value))
             # an attribute assignment returns nothing; compare the exception class only
-            self.emit('set %s %s - 1 1' % (enc(cssname), opt(value)), None if r.startswith('ok') else r, op)
+            self.emit('aset %s %s' % (enc(dom), opt(value)), None if r.startswith('ok') else r, op)
         elif k == 'rm':
             _, name, norm = op
             r = self.call(lambda: style.removeProperty(name, normalize=norm))
@@ -384,7 +385,7 @@ class Session:
             _, dom, cssname = op
             r = self.call(lambda: delattr(style, dom))
             # `del style.x` returns nothing; compare the exception class only
-            self.emit('rm %s 1' % enc(cssname), None if r.startswith('ok') else r, op)
+            self.emit('adel %s' % enc(dom), None if r.startswith('ok') else r, op)
         elif k == 'text':
             items = op[1]
             words = []
@@ -414,7 +415,7 @@ class Session:
         for q in G.queries_for(op, self.rng):
             self.query(style, q)
         # a listed (normalised) name looked up by a literal spelling of it (`requote`)
-        for kname in style.keys()[:3]:
+        for kname in style.keys()[:2]:
             self.emit('rq %s' % enc(kname), enc(G.requote(kname)), ('requote', kname))
             self.emit('gvq %s' % enc(kname), enc(style.getPropertyValue(G.requote(kname))), ('listed name', kname))
 
@@ -434,7 +435,11 @@ class Session:
         elif k == 'has':
             self.emit('has %s' % enc(q[1]), '1' if q[1] in style else '0', q)
         elif k == 'attrget':
-            self.emit('gv %s 1' % enc(q[2]), enc(getattr(style, q[1])), q)
+            try:
+                got = enc(getattr(style, q[1]))
+            except AttributeError:
+                got = 'err crash:AttributeError'
+            self.emit('aget %s' % enc(q[1]), got, q)
 
     # -- variables ops ------------------------------------------------------------------------------
     def run_vars(self, ops):
@@ -496,7 +501,7 @@ class Session:
                     self.emit('vget %s' % enc(nm), enc(v[nm]), ('v[]', nm))
                     self.emit('vhas %s' % enc(nm), '1' if nm in v else '0', ('vhas', nm))
                 self.oracle_vars(v, op)
-                if self.rng.random() < 0.3:
+                if self.rng.random() < 0.15:
                     self.probe_prefs_vars(v, G.gen_prefs(self.rng))
             self.probe_prefs_vars(v, G.gen_prefs(self.rng))
             self.probe_prefs_vars(v, G.gen_prefs(self.rng, single=True))
@@ -613,8 +618,12 @@ class C10(Check):
                'cssutils/profiles.py')
     trusted_base = (
         'hand-written model lean/CssVerif/Model/Decl.lean of CSSStyleDeclaration / Property (name, priority) / '
-        'CSSVariablesDeclaration / the declaration serializer / helper.normalize / the DOM-name converters, tied to '
-        'the code by the lock-step correspondence of this run (observation after every operation)',
+        'CSSVariablesDeclaration / helper.normalize / the DOM-name converters, and Model/DeclText.lean of do_Property / '
+        'do_css_CSSStyleDeclaration / do_css_CSSVariablesDeclaration with Out.append / Out.value under every serializer '
+        'preference they read, tied to the code by the lock-step correspondence of this run (observation after every '
+        'operation) and by preference probes (cssText, getCssText(sep), source items, reparse under random preferences)',
+        'the value text under non-default preferences and property.valid are PARAMETERS of the rendering model '
+        '(REnv.vtext, REnv.valid), tabulated from the implementation in the probes',
         'the tokenizer and the value grammar are PARAMETERS of the model (Env.tokenize, Env.parseValue, Env.isIdent): '
         'theorems hold for every instance; in the correspondence they are tabulated from the real Tokenizer / '
         'PropertyValue / ProdParser',
@@ -634,7 +643,10 @@ class C10(Check):
             'white space, comments, escapes, and invalid ones; ops: setProperty (normalize/replace flags), '
             'removeProperty, []=, del [], camel-case attribute set/get/del, cssText replacement from rendered items, '
             'error-mode switches (raise/log), read-only switches; variables: setVariable, removeVariable, []=, del, '
-            'cssText. non-trivial = a sequence whose final block holds at least two entries with the same normalised '
+            'cssText (values incl. ones ending in an escaped blank). serializer preferences: after 12-15% of the '
+            'operations and twice per history all 14 preferences at random (bool flipped with p=0.4, validOnly 0.15; '
+            'strings from 2-5 choices each) or exactly one preference off its default; getCssText separators '
+            'newline, empty, blank, semicolon, newline+indent. non-trivial = a sequence whose final block holds at least two entries with the same normalised '
             'name, or whose ops include an update of an existing name, a removal of a present name or a rejected op')
 
     def translate(self, ctx):
